@@ -21,6 +21,7 @@ def main():
         cfg = spec["configs"][name]
         out = os.path.join(wd, f"out-{n}.pqr")
         args = [a.replace("@DIR@", spec["files"]) for a in cfg["args"]] + [os.path.join(spec["files"], cfg["input"]), out]
+        atoms = None
         try:
             with contextlib.redirect_stdout(io.StringIO()), contextlib.redirect_stderr(io.StringIO()):
                 if spec.get("cli") and n == len(spec["history"]) - 1:
@@ -32,12 +33,14 @@ def main():
                         sys.argv = old
                 else:
                     pmain.run_pdb2pqr(args)
-            res = hashlib.sha1(open(out, "rb").read()).hexdigest()
+            data = open(out, "rb").read()
+            res = hashlib.sha1(data).hexdigest()
+            atoms = hashlib.sha1(b"\n".join(ln[:6] + ln[11:] for ln in data.split(b"\n") if ln.startswith((b"ATOM", b"HETATM")))).hexdigest()
         except SystemExit as e:
             res = f"SystemExit:{e.code}"
         except BaseException as e:
             res = type(e).__name__
-        print(json.dumps({"cfg": name, "out": res}), flush=True)
+        print(json.dumps({"cfg": name, "out": res, "atoms": atoms or res}), flush=True)
         try:
             os.unlink(out)
         except OSError:
